@@ -121,6 +121,7 @@ func c10Corpus() []*c10Key {
 		c10Finish(ok)
 		ks = append(ks, ok)
 	}
+	ks = append(ks, c10UnknownKeys()...)
 	return ks
 }
 
@@ -382,7 +383,7 @@ func TestVerif_C10(t *testing.T) {
 	addPred(3, 0, 0, "a string")
 
 	// (b) the six issuing paths
-	request := func(path string, sshLine, pemKey, derRU string) *http.Request {
+	var request c10Requester = func(path string, sshLine, pemKey, derRU string) *http.Request {
 		switch path {
 		case "ssh":
 			r := verifCertgenRequest("POST", "alice", "ssh", sshLine, nil, nil)
@@ -558,13 +559,33 @@ func TestVerif_C10(t *testing.T) {
 	}
 	// (d) malformed address extensions in otherwise trusted client certificates
 	verifCorruptExtensionProbe(env, res, good, "C10")
+	// (g) the configuration dimension (key deny lists), (h) the structure of a submitted PEM text
+	cfgCases, cfgIdx := c10ConfigStage(env, res, corpus, request)
+	pemCases, pemIdx := c10PemStage(env, res, corpus, request)
+	// (i) the pubkey form parameter of the role paths: encodings, repeated values
+	paramCases, paramIdx := c10ParamStage(env, res, corpus, func(path string, pubkeys []string) *http.Request {
+		if path == "role" {
+			f := roleCertForm("svc-automation", []string{"10.0.0.0/8"}, "")
+			for _, v := range pubkeys {
+				f.Add("pubkey", v)
+			}
+			r := verifNewRequest("POST", getRoleRequestingPath, f)
+			r.AddCookie(adminCookie)
+			return r
+		}
+		f := roleCertForm("", nil, "")
+		for _, v := range pubkeys {
+			f.Add("pubkey", v)
+		}
+		return withTLS(verifNewRequest("POST", refreshRoleRequestingCertPath, f), ipChain, "10.9.9.9:1234")
+	})
 	// (f) the SSH key file as the validator and as the signer read it
 	fileCases, fileIdx := c10FileStage(t, env, res, corpus, userCookie)
 	// (e) signed tokens of every kind, claim-dropped / type-confused / corrupted, at every token sink
 	claimCases, claimIdx := c10TokenStage(t, env, res, rng)
 	var sb strings.Builder
 	sb.WriteString(coqCaseHeader)
-	sb.WriteString("From KM Require Import Base.Cases Model.KeyStrength Model.ClaimAccess.\nOpen Scope N_scope.\n")
+	sb.WriteString("From KM Require Import Base.Cases Model.KeyStrength Model.ClaimAccess Model.PemWalk.\nOpen Scope N_scope.\n")
 	sb.WriteString("Definition pred_cases : list (N * N * N * bool) := [\n " + strings.Join(predCases, ";\n ") + "].\n")
 	sb.WriteString("Definition c10_pred_mismatches := Eval vm_compute in mismatches c10_bad pred_cases.\nPrint c10_pred_mismatches.\n")
 	sb.WriteString("(* issuing paths: class 0 = certificate issued, 1 = client error, 2 = server error/other *)\n")
@@ -578,13 +599,28 @@ func TestVerif_C10(t *testing.T) {
 	sb.WriteString("Definition c10_issuer : bs := " + coqPacked([]byte(env.state.idpGetIssuer())) + ".\nDefinition c10_kind : bs := " + coqPacked([]byte("keymaster_auth")) + ".\n")
 	sb.WriteString("Definition claim_cases : list (json * Z * bool * option (bs * Z * Z * Z)) := [\n " + strings.Join(claimCases, ";\n ") + "].\n")
 	sb.WriteString("Definition c10_claim_mismatches := Eval vm_compute in mismatches (fun c : json * Z * bool * option (bs * Z * Z * Z) => let '(pl, now, pan, obs) := c in match get_auth_info c10_issuer c10_kind now pl, obs with | Ok (u, l, e, i), Some (u', l', e', i') => pan || negb (bs_eqb u u' && (l =? l')%Z && (e =? e')%Z && (i =? i')%Z) | Err, None => pan | Panic, _ => negb pan | _, _ => true end) claim_cases.\nPrint c10_claim_mismatches.\n")
-	sb.WriteString("Definition c10_ncases := Eval vm_compute in (length pred_cases + length pipe_cases + length file_cases + length claim_cases)%nat.\nPrint c10_ncases.\n")
+	sb.WriteString("(* configuration dimension: (path, parsed key, fingerprint identity, deny list, path consults the list when issuing, class) *)\n")
+	sb.WriteString("Definition cfg_cases : list cfg_case := [\n " + strings.Join(cfgCases, ";\n ") + "].\n")
+	sb.WriteString("Definition c10_cfg_mismatches := Eval vm_compute in mismatches c10_cfg_bad cfg_cases.\nPrint c10_cfg_mismatches.\n")
+	sb.WriteString("Definition c10_cfg_violating := Eval vm_compute in mismatches (fun c => c10_cfg_bad c && c10_cfg_violates c) cfg_cases.\nPrint c10_cfg_violating.\n")
+	sb.WriteString("(* PEM structure: (path, blocks as pem.Decode delivers them, bytes after the last block, class, panicked) *)\n")
+	sb.WriteString("Definition pem_cases : list pem_case := [\n " + strings.Join(pemCases, ";\n ") + "].\n")
+	sb.WriteString("Definition c10_pem_mismatches := Eval vm_compute in mismatches c10_pem_bad pem_cases.\nPrint c10_pem_mismatches.\n")
+	sb.WriteString("Definition c10_pem_violating := Eval vm_compute in mismatches (fun c => c10_pem_bad c && c10_pem_violates c) pem_cases.\nPrint c10_pem_violating.\n")
+	sb.WriteString("(* pubkey form parameter of the role paths: (path, values, class) *)\n")
+	sb.WriteString("Definition param_cases : list param_case := [\n " + strings.Join(paramCases, ";\n ") + "].\n")
+	sb.WriteString("Definition c10_param_mismatches := Eval vm_compute in mismatches c10_param_bad param_cases.\nPrint c10_param_mismatches.\n")
+	sb.WriteString("Definition c10_param_violating := Eval vm_compute in mismatches (fun c => c10_param_bad c && c10_param_violates c) param_cases.\nPrint c10_param_violating.\n")
+	sb.WriteString("Definition c10_ncases := Eval vm_compute in (length pred_cases + length pipe_cases + length file_cases + length claim_cases + length cfg_cases + length pem_cases + length param_cases)%nat.\nPrint c10_ncases.\n")
 	if err := ioutil.WriteFile(filepath.Join(verifOut(), "CasesC10.v"), []byte(sb.String()), 0644); err != nil {
 		t.Fatal(err)
 	}
 	ioutil.WriteFile(filepath.Join(verifOut(), "CasesC10.idx"), []byte(strings.Join(pipeIdx, "\n")), 0644)
 	ioutil.WriteFile(filepath.Join(verifOut(), "CasesC10F.idx"), []byte(strings.Join(fileIdx, "\n")), 0644)
 	ioutil.WriteFile(filepath.Join(verifOut(), "CasesC10J.idx"), []byte(strings.Join(claimIdx, "\n")), 0644)
+	ioutil.WriteFile(filepath.Join(verifOut(), "CasesC10G.idx"), []byte(strings.Join(cfgIdx, "\n")), 0644)
+	ioutil.WriteFile(filepath.Join(verifOut(), "CasesC10P.idx"), []byte(strings.Join(pemIdx, "\n")), 0644)
+	ioutil.WriteFile(filepath.Join(verifOut(), "CasesC10R.idx"), []byte(strings.Join(paramIdx, "\n")), 0644)
 	res.sample(map[string]interface{}{"path": "role", "key": "rsa-2047-e65537", "expected": "client error"})
 	res.sample(pipeIdx[0])
 	res.sample(pipeIdx[len(pipeIdx)/2])
